@@ -29,10 +29,13 @@ var (
 	// SqrtM1 = 2^((p-1)/4) mod p, a square root of -1.
 	SqrtM1 = new(big.Int).Exp(bi(2), new(big.Int).Rsh(new(big.Int).Sub(P, bi(1)), 2), P)
 
-	d2      = fadd(D, D)                                             // 2d
-	sqrtExp = new(big.Int).Rsh(new(big.Int).Add(P, bi(3)), 3)       // (p+3)/8
-	two255  = new(big.Int).Lsh(bi(1), 255)                           // 2^255
-	base    = func() Point { // y = 4/5, x even (RFC 8032 section 5.1)
+	d2       = fadd(D, D)                                            // 2d
+	sqrtExp  = new(big.Int).Rsh(new(big.Int).Add(P, bi(3)), 3)       // (p+3)/8
+	two255   = new(big.Int).Lsh(bi(1), 255)                          // 2^255
+	mask255  = new(big.Int).Sub(new(big.Int).Lsh(bi(1), 255), bi(1)) // 2^255 - 1
+	nineteen = bi(19)
+	// base point: y = 4/5, x even (RFC 8032 section 5.1)
+	base = func() Point {
 		y := fmul(bi(4), finv(bi(5)))
 		x, ok := recoverX(y)
 		if !ok {
@@ -48,10 +51,41 @@ var (
 
 // ---------------------------------------------------------------- field helpers (all return fresh values in [0,p))
 
-func fadd(a, b *big.Int) *big.Int { r := new(big.Int).Add(a, b); return r.Mod(r, P) }
-func fsub(a, b *big.Int) *big.Int { r := new(big.Int).Sub(a, b); return r.Mod(r, P) }
-func fmul(a, b *big.Int) *big.Int { r := new(big.Int).Mul(a, b); return r.Mod(r, P) }
-func fneg(a *big.Int) *big.Int    { r := new(big.Int).Neg(a); return r.Mod(r, P) }
+// norm brings r into [0,p): one conditional add/subtract when r is in (-p,2p)
+// (always the case for sums/differences of reduced values), division otherwise.
+func norm(r *big.Int) *big.Int {
+	if r.Sign() < 0 {
+		r.Add(r, P)
+	} else if r.Cmp(P) >= 0 {
+		r.Sub(r, P)
+	}
+	if r.Sign() < 0 || r.Cmp(P) >= 0 {
+		r.Mod(r, P)
+	}
+	return r
+}
+
+// reduce brings r >= 0 into [0,p) without division, using 2^255 = 19 (mod p):
+// r = hi*2^255 + lo  ->  19*hi + lo, repeated until r < 2^255.
+func reduce(r *big.Int) *big.Int {
+	if r.Sign() < 0 {
+		return r.Mod(r, P)
+	}
+	for r.BitLen() > 255 {
+		hi := new(big.Int).Rsh(r, 255)
+		r.And(r, mask255)
+		r.Add(r, hi.Mul(hi, nineteen))
+	}
+	if r.Cmp(P) >= 0 {
+		r.Sub(r, P)
+	}
+	return r
+}
+
+func fadd(a, b *big.Int) *big.Int { return norm(new(big.Int).Add(a, b)) }
+func fsub(a, b *big.Int) *big.Int { return norm(new(big.Int).Sub(a, b)) }
+func fmul(a, b *big.Int) *big.Int { return reduce(new(big.Int).Mul(a, b)) }
+func fneg(a *big.Int) *big.Int    { return norm(new(big.Int).Neg(a)) }
 func finv(a *big.Int) *big.Int {
 	r := new(big.Int).ModInverse(new(big.Int).Mod(a, P), P)
 	if r == nil {
@@ -94,12 +128,12 @@ func (p Point) Add(q Point) Point {
 	return Point{x3, y3}
 }
 
-func (p Point) Neg() Point          { return Point{fneg(p.X), new(big.Int).Set(p.Y)} }
-func (p Point) Sub(q Point) Point   { return p.Add(q.Neg()) }
-func (p Point) Equal(q Point) bool  { return p.X.Cmp(q.X) == 0 && p.Y.Cmp(q.Y) == 0 }
-func (p Point) IsIdentity() bool    { return p.X.Sign() == 0 && p.Y.Cmp(bi(1)) == 0 }
+func (p Point) Neg() Point           { return Point{fneg(p.X), new(big.Int).Set(p.Y)} }
+func (p Point) Sub(q Point) Point    { return p.Add(q.Neg()) }
+func (p Point) Equal(q Point) bool   { return p.X.Cmp(q.X) == 0 && p.Y.Cmp(q.Y) == 0 }
+func (p Point) IsIdentity() bool     { return p.X.Sign() == 0 && p.Y.Cmp(bi(1)) == 0 }
 func (p Point) MulByCofactor() Point { return p.ScalarMult(bi(8)) }
-func (p Point) IsSmallOrder() bool  { return p.MulByCofactor().IsIdentity() }
+func (p Point) IsSmallOrder() bool   { return p.MulByCofactor().IsIdentity() }
 
 // IsOnCurve checks 0 <= x,y < p and -x^2 + y^2 = 1 + d x^2 y^2.
 func (p Point) IsOnCurve() bool {
@@ -114,15 +148,60 @@ func (p Point) IsOnCurve() bool {
 // used only inside ScalarMult to avoid one field inversion per group operation.
 type ext struct{ x, y, z, t *big.Int }
 
-// add is the unified "add-2008-hwcd-3" formula; it is complete for a = -1 and
-// non-square d, so it also serves as the doubling.
-func (p ext) add(q ext) ext {
-	a := fmul(fsub(p.y, p.x), fsub(q.y, q.x))
-	b := fmul(fadd(p.y, p.x), fadd(q.y, q.x))
-	c := fmul(fmul(p.t, d2), q.t)
-	d := fmul(fadd(p.z, p.z), q.z)
-	e, f, g, h := fsub(b, a), fsub(d, c), fadd(d, c), fadd(b, a)
-	return ext{fmul(e, f), fmul(g, h), fmul(f, g), fmul(e, h)}
+// ladder holds the accumulator and scratch space of one ScalarMult call. Its
+// in-place helpers exist only to avoid ~20k allocations per multiplication;
+// they assume reduced inputs and that dst of mul is distinct from its operands.
+type ladder struct {
+	r                              ext
+	a, b, c, d, e, f, g, h, t1, t2 *big.Int
+	hi, hi19                       *big.Int
+}
+
+func (w *ladder) mul(dst, x, y *big.Int) { // dst = x*y mod p, same folding as reduce
+	dst.Mul(x, y)
+	for dst.BitLen() > 255 {
+		w.hi.Rsh(dst, 255)
+		dst.And(dst, mask255)
+		dst.Add(dst, w.hi19.Mul(w.hi, nineteen))
+	}
+	if dst.Cmp(P) >= 0 {
+		dst.Sub(dst, P)
+	}
+}
+func (w *ladder) add(dst, x, y *big.Int) {
+	if dst.Add(x, y); dst.Cmp(P) >= 0 {
+		dst.Sub(dst, P)
+	}
+}
+func (w *ladder) sub(dst, x, y *big.Int) {
+	if dst.Sub(x, y); dst.Sign() < 0 {
+		dst.Add(dst, P)
+	}
+}
+
+// step sets r = r + q with the unified "add-2008-hwcd-3" formula, which is
+// complete for a = -1 and non-square d, so q = r gives the doubling. All
+// inputs are consumed before r is overwritten, hence q may alias r.
+func (w *ladder) step(q *ext) {
+	r := &w.r
+	w.sub(w.t1, r.y, r.x)
+	w.sub(w.t2, q.y, q.x)
+	w.mul(w.a, w.t1, w.t2) // A = (Y1-X1)(Y2-X2)
+	w.add(w.t1, r.y, r.x)
+	w.add(w.t2, q.y, q.x)
+	w.mul(w.b, w.t1, w.t2) // B = (Y1+X1)(Y2+X2)
+	w.mul(w.t1, r.t, d2)
+	w.mul(w.c, w.t1, q.t) // C = T1*2d*T2
+	w.add(w.t1, r.z, r.z)
+	w.mul(w.d, w.t1, q.z) // D = 2*Z1*Z2
+	w.sub(w.e, w.b, w.a)
+	w.sub(w.f, w.d, w.c)
+	w.add(w.g, w.d, w.c)
+	w.add(w.h, w.b, w.a)
+	w.mul(r.x, w.e, w.f)
+	w.mul(r.y, w.g, w.h)
+	w.mul(r.z, w.f, w.g)
+	w.mul(r.t, w.e, w.h)
 }
 
 // ScalarMult returns [k]p for any non-negative k (k is not reduced), by
@@ -131,16 +210,18 @@ func (p Point) ScalarMult(k *big.Int) Point {
 	if k.Sign() < 0 {
 		panic("ed: negative scalar")
 	}
-	pe := ext{p.X, p.Y, bi(1), fmul(p.X, p.Y)}
-	r := ext{bi(0), bi(1), bi(1), bi(0)}
+	n := func() *big.Int { return new(big.Int) }
+	w := ladder{ext{bi(0), bi(1), bi(1), bi(0)}, n(), n(), n(), n(), n(), n(), n(), n(), n(), n(), n(), n()}
+	x, y := new(big.Int).Mod(p.X, P), new(big.Int).Mod(p.Y, P) // no-op for well-formed points
+	pe := ext{x, y, bi(1), fmul(x, y)}                         // read-only
 	for i := k.BitLen() - 1; i >= 0; i-- {
-		r = r.add(r)
+		w.step(&w.r)
 		if k.Bit(i) == 1 {
-			r = r.add(pe)
+			w.step(&pe)
 		}
 	}
-	zi := finv(r.z)
-	return Point{fmul(r.x, zi), fmul(r.y, zi)}
+	zi := finv(w.r.z)
+	return Point{fmul(w.r.x, zi), fmul(w.r.y, zi)}
 }
 
 // ---------------------------------------------------------------- encodings
